@@ -46,9 +46,12 @@ SimRoot ==
       revokes == {x \in en : x.a = "Revoke" /\ users[x.u].priv[x.d] # "none"}
       rare == {x \in en : x.a \in {"DropUser", "SetPassword", "SetAdminOn", "SetAdminOff", "DropDatabase", "CreateDatabase"}}
       cu == {x \in en : x.a = "CreateUser"}
+      \* a REVOKE of something the user does not hold (on a database without any grant, too): must change nothing
+      blind == {x \in en : x.a = "Revoke" /\ RevokeLevel(users[x.u].priv[x.d], x.p) = users[x.u].priv[x.d]}
   IN (IF cu # {} THEN {RandomElement(cu)} ELSE {})
      \cup (IF grants # {} THEN {RandomElement(grants)} ELSE {})
      \cup (IF revokes # {} /\ RandomElement(1..(2 + 0 * N)) = 1 THEN {RandomElement(revokes)} ELSE {})
+     \cup (IF blind # {} /\ RandomElement(1..(3 + 0 * N)) = 1 THEN {RandomElement(blind)} ELSE {})
      \cup (IF rare # {} /\ RandomElement(1..(3 + 0 * N)) = 1 THEN {RandomElement(rare)} ELSE {})
 
 \* ---- a scripted family of behaviours (enumerated by BFS): the life of one user's privileges ----
@@ -89,6 +92,42 @@ RaceRoot ==
     [] N = 5 -> {RootAct("DropUser", u, "", "") : u \in {x \in Users : inflight # <<>> /\ x # inflight[1].u}}
     [] OTHER -> {}
 RaceBegin == IF N = 4 THEN {QAs(u, "sel", "db1") : u \in Users} ELSE {}
+
+\* ---- the response cache: who fills, who hits (BFS from the fixed privilege table) ----
+\* step 0: a request that may fill the cache (a privileged user, the administrator) or must not (write-only user, a user
+\*         of the other database, a wrong password, nobody);
+\* step 1: EITHER any request of the whole credential x transport alphabet for the same cacheable read (the hit),
+\*         OR an administrator action that changes what the filler / a by-stander may do;
+\* step 2: the users concerned ask again
+CReq(c, t, d) == [rc |-> "cread", cred |-> c, tr |-> t, db |-> d, on |-> "", stmts |-> <<>>]
+UCred(u, pw) == [k |-> "user", u |-> u, pw |-> pw]
+CacheFillers == {CReq(UCred(u, "cur"), t, "db1") : u \in {"u1", "u2", "u3", Root}, t \in {"basic", "bearer"}}
+                \cup {CReq(UCred("u1", "bad"), "basic", "db1"), CReq(CredNone, "basic", "db1"), CReq(UCred("u3", "cur"), "url", "db2")}
+CacheAll == {r \in AllReqs : r.rc = "cread"}
+CacheAgain == {CReq(UCred(u, "cur"), "basic", "db1") : u \in {"u1", "u2"}} \cup {CReq(UCred("u1", "old"), "basic", "db1"), CReq(CredNone, "basic", "db1")}
+CacheReqs ==
+  CASE N = 0 -> CacheFillers
+    [] N = 1 -> CacheAll
+    [] N = 2 -> CacheAgain
+    [] OTHER -> {}
+CacheRoot ==
+  IF N = 1 THEN {RootAct("Revoke", "u1", "db1", "read"), RootAct("Revoke", "u1", "db1", "all"), RootAct("Grant", "u2", "db1", "read"),
+                 RootAct("Grant", "u1", "db1", "write"), RootAct("SetPassword", "u1", "", ""), RootAct("DropUser", "u1", "", "")}
+  ELSE {}
+
+\* exhaustive run on the cache dimension: from the fixed privilege table, administrator actions on db1 / u1
+CacheExhRoot == {RootAct(a, u, "db1", p) : a \in {"Grant", "Revoke"}, u \in Users, p \in {"read", "all"}}
+                \cup {RootAct("DropUser", "u1", "", ""), RootAct("CreateUser", "u1", "", ""), RootAct("SetPassword", "u1", "", ""),
+                      RootAct("DropDatabase", "", "db1", ""), RootAct("CreateDatabase", "", "db1", "")}
+
+\* ---- GRANT / REVOKE table (BFS): every privilege held (none, read, write, all) against every privilege revoked, and a
+\* second REVOKE on top: a REVOKE of what is not held - also on a database nothing was ever granted on - changes nothing
+RevokeRoot ==
+  CASE N = 0 -> {RootAct("CreateUser", "u1", "", "")}
+    [] N = 1 -> {RootAct("Grant", "u1", "db1", p) : p \in Grantable} \cup {RootAct("Revoke", "u1", "db1", p) : p \in Grantable}
+    [] N = 2 -> {RootAct("Revoke", "u1", "db1", p) : p \in Grantable}
+    [] N = 3 -> {RootAct("Revoke", "u1", d, p) : d \in Dbs, p \in {"read", "write"}}
+    [] OTHER -> {}
 
 Export == (Len(hist) = Depth) => PrintT(<<"TRACE", ToJson(hist)>>)
 =============================================================================
